@@ -3,20 +3,29 @@ package main
 import (
 	"fmt"
 	"go/token"
+	"go/types"
 	"strings"
+
+	"golang.org/x/tools/go/ssa"
 )
 
 // Lock discipline (C08): ghost lock state held[addr] in {0 free, 1 read, 2 write}.
 // Active only when the function contract carries flag `locks`.
 
-func (x *Exec) addrFn(key string) string {
-	fn := "addr_" + sanitize(key)
-	x.sc.declFun(fn, []string{"Int"}, "Int")
-	x.sc.declare("ax:"+fn, fmt.Sprintf("(assert (forall ((a Int) (b Int)) (! (=> (= (%s a) (%s b)) (= a b)) :pattern ((%s a) (%s b)))))", fn, fn, fn, fn))
-	return fn
+// lockAddr encodes the address of lock field `key` of object ref injectively: ref*64 + field id.
+func (x *Exec) lockAddr(key string, ref Term) Term {
+	if x.lockIDs == nil {
+		x.lockIDs = map[string]int{}
+	}
+	id, ok := x.lockIDs[key]
+	if !ok {
+		id = len(x.lockIDs) + 1
+		x.lockIDs[key] = id
+	}
+	return fmt.Sprintf("(+ (* %s 64) %d)", ref, id)
 }
 
-func (x *Exec) addrTerm(l *Loc) Term { return app(x.addrFn(l.Key), l.Ref) }
+func (x *Exec) addrTerm(l *Loc) Term { return x.lockAddr(l.Key, l.Ref) }
 
 const heldKey = "X:held"
 const heldSort = "(Array Int Int)"
@@ -80,7 +89,7 @@ func (x *Exec) lockCheck(st *State, l *Loc, write bool, reach Term, pos token.Po
 		return
 	}
 	x.heapBase(heldKey, heldSort)
-	cur := sel(x.heapGet(st, heldKey, heldSort), app(x.addrFn(g), l.Ref))
+	cur := sel(x.heapGet(st, heldKey, heldSort), x.lockAddr(g, l.Ref))
 	min, kind := "1", "read"
 	if write {
 		min, kind = "2", "write"
@@ -88,4 +97,60 @@ func (x *Exec) lockCheck(st *State, l *Loc, write bool, reach Term, pos token.Po
 	fld := l.Key[strings.Index(l.Key, "_")+1:]
 	x.oblige("lock", kind+"@"+fld, implies(reach, or(le(min, cur), lt(x.allocBase0, l.Ref))), pos,
 		fmt.Sprintf("%s of guarded field %s holds %s", kind, fld, g[strings.LastIndex(g, ".")+1:]))
+}
+
+// touchesLocks: does fn (transitively, within the module) call a sync mutex method or access a guarded field?
+func (e *Engine) touchesLocks(x *Exec, fn *ssa.Function, depth int) bool {
+	if e.lockTouch == nil {
+		e.lockTouch = map[*ssa.Function]int{}
+	}
+	if v, ok := e.lockTouch[fn]; ok {
+		return v == 1
+	}
+	e.lockTouch[fn] = 2 // in progress: assume no
+	res := false
+	for _, b := range fn.Blocks {
+		for _, in := range b.Instrs {
+			switch t := in.(type) {
+			case *ssa.FieldAddr:
+				if pt, ok := under(t.X.Type()).(*types.Pointer); ok {
+					if si := x.so.structOf(pt.Elem()); si != nil {
+						k, _ := x.fieldKey(si, t.Field)
+						if e.guardOf(x, k) != "" {
+							res = true
+						}
+					}
+				}
+			case ssa.CallInstruction:
+				c := t.Common()
+				if callee := c.StaticCallee(); callee != nil {
+					n := fullName(callee)
+					if strings.HasPrefix(n, "(*sync.Mutex)") || strings.HasPrefix(n, "(*sync.RWMutex)") {
+						res = true
+					} else if callee.Blocks != nil && strings.HasPrefix(pkgOf(callee), modPath) && depth < 8 {
+						if e.touchesLocks(x, callee, depth+1) {
+							res = true
+						}
+					}
+				} else if c.IsInvoke() {
+					// interface call: any implementation in the module may lock; be conservative for module interfaces
+					if nt, ok := types.Unalias(c.Value.Type()).(*types.Named); ok && nt.Obj().Pkg() != nil && strings.HasPrefix(nt.Obj().Pkg().Path(), modPath) {
+						res = true
+					}
+				} else {
+					if mc, ok := c.Value.(*ssa.MakeClosure); ok {
+						if e.touchesLocks(x, mc.Fn.(*ssa.Function), depth+1) {
+							res = true
+						}
+					}
+				}
+			}
+		}
+	}
+	if res {
+		e.lockTouch[fn] = 1
+	} else {
+		e.lockTouch[fn] = 0
+	}
+	return res
 }
